@@ -216,6 +216,191 @@ func c01() []*Ob {
 					c.Undecided("prov:writeSyncer:none", token.NoPos, "no construction of frac.writeSyncer found")
 				}
 			}},
+		{Prop: "C01", ID: "C01.6", Engine: "ERRFLOW+TRUNC(ORDER+PROV+OWN)", Floor: 5,
+			Desc: "Replay is tolerant and consistent with appending: io.EOF from ReadDocBlock ends the log (no error, no fatal sink), other errors are returned; before every success return both files are truncated to the replayed positions and the FileWriter append offsets are re-based there (otherwise the next append lands behind a torn tail / orphan block and the next replay misreads the files)",
+			Check: func(c *Ctx) {
+				fn := c.Fn("(*frac.Active).Replay")
+				if fn == nil {
+					return
+				}
+				rd := Callee("(*disk.DocBlocksReader).ReadDocBlock")
+				reads := CallsIn(fn, rd)
+				if len(reads) == 0 {
+					c.Undecided("replay:noread", fn.Pos(), "Replay no longer calls DocBlocksReader.ReadDocBlock")
+					return
+				}
+				ErrPathCheck(c, []*ssa.Function{fn}, nil)
+				for _, r := range reads {
+					ev := ErrorResult(r)
+					if ev == nil {
+						c.Violation("errflow:Replay:ReadDocBlock", r.Pos(), "the error of ReadDocBlock is dropped")
+						continue
+					}
+					// the EOF branch
+					found := false
+					for _, ref := range *ev.Referrers() {
+						bo, ok := ref.(*ssa.BinOp)
+						if !ok || bo.Op != token.EQL {
+							continue
+						}
+						isEOF := func(v ssa.Value) bool {
+							u, ok := v.(*ssa.UnOp)
+							if !ok {
+								return false
+							}
+							g, ok := u.X.(*ssa.Global)
+							return ok && g.Name() == "EOF" && g.Pkg.Pkg.Path() == "io"
+						}
+						if !isEOF(bo.X) && !isEOF(bo.Y) {
+							continue
+						}
+						for _, rr := range *bo.Referrers() {
+							ifi, ok := rr.(*ssa.If)
+							if !ok {
+								continue
+							}
+							found = true
+							tb := ifi.Block().Succs[0]
+							bad := ""
+							for _, b := range fn.Blocks {
+								if b != tb && !(len(tb.Preds) == 1 && tb.Dominates(b)) {
+									continue
+								}
+								// only the part of the region before control leaves the loop body matters
+								if b != tb && !InLoop(b) {
+									continue
+								}
+								for _, in := range b.Instrs {
+									if IsFatalInstr(in) {
+										bad = "reaches a fatal sink"
+									}
+								}
+							}
+							for _, rp := range ReturnPaths(fn, ErrorResultIndex(fn)) {
+								if (rp.At == tb || len(tb.Preds) == 1 && tb.Dominates(rp.At)) && InLoop(rp.At) && DefinitelyNonNil(rp.Val, rp.Facts) {
+									bad = "returns an error"
+								}
+							}
+							if bad != "" {
+								c.Violation("dom:Replay:EOF-ends-log", ifi.Pos(), "a short read at the end of the meta file (torn last block) %s instead of ending the replay", bad)
+							} else {
+								c.Site(ifi.Pos(), "io.EOF from ReadDocBlock ends the replay loop")
+							}
+						}
+					}
+					if !found {
+						c.Violation("dom:Replay:EOF-not-tested", r.Pos(), "Replay does not distinguish io.EOF (end of log / torn tail) from other read errors")
+					}
+				}
+				// TRUNC
+				x := &FileOpExtractor{P: c.P, Cfg: func(ssa.Value) (string, string, string, bool) { return "", "", "", false }}
+				fromMetaSize := func(v ssa.Value) bool {
+					e, ok := v.(*ssa.Extract)
+					if !ok || e.Index != 1 {
+						return false
+					}
+					cl, ok := e.Tuple.(ssa.CallInstruction)
+					return ok && rd(cl)
+				}
+				fromExt1 := func(v ssa.Value) bool {
+					cl, ok := v.(ssa.CallInstruction)
+					return ok && CallName(cl) == "(disk.DocBlock).GetExt1"
+				}
+				offsetStore := func(field string) Matcher {
+					return func(cl ssa.CallInstruction) bool {
+						if CallName(cl) != "(*sync/atomic.Int64).Store" {
+							return false
+						}
+						r := Receiver(cl)
+						typ, f, base, ok := FieldOf(r)
+						return ok && typ == "frac.FileWriter" && f == "offset" && ValueIsField(base, "frac.ActiveWriter", field)
+					}
+				}
+				idx := ErrorResultIndex(fn)
+				for _, rp := range ReturnPaths(fn, idx) {
+					if DefinitelyNonNil(rp.Val, rp.Facts) {
+						continue
+					}
+					ok := false
+					why := "no call that truncates the files dominates this success return"
+					for _, call := range CallsIn(fn, c.P.Reaches(Callee("(*os.File).Truncate"), 3)) {
+						ci := call.(ssa.Instruction)
+						if !(ci.Block() == rp.At || ci.Block().Dominates(rp.At)) {
+							continue
+						}
+						seqs := x.SeqsOfCall(call)
+						if CallName(call) == "(*os.File).Truncate" {
+							continue // a direct truncate: handled only through a helper in today's code
+						}
+						hasMeta, hasDocs := len(seqs) > 0, len(seqs) > 0
+						for _, s := range seqs {
+							m, d := false, false
+							for _, op := range s.Ops {
+								if op.Kind == "truncate" && op.A == ".meta" {
+									m = true
+								}
+								if op.Kind == "truncate" && op.A == ".docs" {
+									d = true
+								}
+							}
+							// a path of the helper that skips the truncate must be one where nothing lies behind the position;
+							// only complete success sequences are compared
+							if !s.Died {
+								hasMeta = hasMeta && m
+								hasDocs = hasDocs && d
+							}
+						}
+						argMeta, argDocs := false, false
+						for _, a := range call.Common().Args {
+							if DerivesFrom(a, fromMetaSize) {
+								argMeta = true
+							}
+							if DerivesFrom(a, fromExt1) {
+								argDocs = true
+							}
+						}
+						callee := StaticCallee(call)
+						stDocs := len(CallsIn(callee, offsetStore("docs"))) > 0
+						stMeta := len(CallsIn(callee, offsetStore("meta"))) > 0
+						switch {
+						case !argMeta || !argDocs:
+							why = "the truncation positions are not derived from the replayed block sizes (meta: ReadDocBlock size, docs: sum of Ext1)"
+						case !stDocs || !stMeta:
+							why = "the FileWriter append offsets are not re-based to the replayed positions"
+						case !hasMeta || !hasDocs:
+							why = "a success path of the helper truncates only one of the two files or none"
+							// truncation may be conditional (file not longer than the position): accept when a truncate of each file is reachable
+							all := map[string]bool{}
+							for _, s := range seqs {
+								for _, op := range s.Ops {
+									if op.Kind == "truncate" {
+										all[op.A] = true
+									}
+								}
+							}
+							if all[".meta"] && all[".docs"] {
+								ok = true
+							}
+						default:
+							ok = true
+						}
+						if ok {
+							break
+						}
+					}
+					if ok {
+						c.Site(rp.Ret.Pos(), "Replay success return is preceded by truncation of .meta/.docs to the replayed positions and re-basing of both append offsets")
+					} else {
+						c.Violation("trunc:Replay:success-return", rp.Ret.Pos(), "Replay can finish without making the files agree with the replayed positions: %s", why)
+					}
+				}
+				for _, p := range x.Problems {
+					c.Undecided("trunc:extract:"+p, fn.Pos(), "%s", p)
+				}
+			}},
+		{Prop: "C01", ID: "C01.7", Engine: "FILESTATE", Floor: 10,
+			Desc:  "loader totality on the active-fraction file sets: no crash prefix of fraction creation, sealing or release makes the loader reach a fatal sink (the store always comes back up)",
+			Check: func(c *Ctx) { fileStateObligations(c, "C01") }},
 		{Prop: "C01", ID: "C01.5", Engine: "PROV+OWN", Floor: 3,
 			Desc: "fsync can be switched off only by the command line: skipSync parameters derive from conf.SkipFsync, which is stored only in package cmd/seq-db (and its initializer)",
 			Check: func(c *Ctx) {
